@@ -155,6 +155,16 @@ class Up:
             self.seen_dispatch = False
             self.queue = [("M",)]
             return ("S", signo)
+        if kind.startswith("Halt") and real:
+            # the real master stops by itself: its worker cannot boot (exit code 3 / 4), SIGCHLD, HaltServer
+            wk = [k for k in w.kids if not k["master"] and k["st"] == "R"]
+            if not wk:
+                return None                      # no worker to fail (WINCH): the event cannot happen, it is not recorded
+            self.phase = "busy"
+            self.cur_event = ("sig", ev)
+            self.seen_dispatch = True            # (if the master does NOT halt, the next idle point is observed)
+            self.queue = [("C",), ("M",)]
+            return ("X", wk[0]["pid"], int(kind[4:]) << 8)
         if kind == "NoticeParent" and real:
             self.phase = "busy"
             self.cur_event = ("loop", ev)
@@ -230,11 +240,12 @@ class Up:
                 w.apply_env(("L", pid, False))
                 w.apply_env(("P",))
 
-        if kind == "Stop":
+        if kind == "Stop" or kind.startswith("Halt"):
             # a child (master_pid != 0) or a parent with a live child (reexec_pid != 0): the socket file stays
+            # (Halt: it stops by itself - its workers cannot boot - with the same clean-up and exit status 3 / 4)
             if pidconf and self.read_pid(myfile) == pid:
                 os.unlink(myfile)
-            die(0)
+            die(0 if kind == "Stop" else int(kind[4:]))
         elif kind == "HUP":
             st["workers"] = 1
             if pidconf:
@@ -329,6 +340,8 @@ def coq_cfg(cfg):
 
 def coq_event(ev, real):
     kind, slot = ev
+    if kind.startswith("Halt"):
+        return ["Halt %s %s" % (slot, kind[4:])]
     e = "%s %s" % (kind, slot)
     # every signal handled by the real master is preceded by the top of its main loop (maybe_promote_master)
     if slot == real and kind in ("USR2", "Stop", "HUP", "WINCH"):
@@ -388,6 +401,13 @@ def judge(cfg, real, u):
                               None))
             if stub_alive and (o[12] if o[s0 + 4] == 1 else o[13]) != 3 - me:
                 fails.append(("the pid file of the other (live) master was removed or overwritten (after %r)" % (ev,), None))
+        # the end of the OTHER master - however it ends, with whatever exit status - never ends this one
+        if prev is not None and ev is not None and prev[r0] and not real_alive:
+            mine = ev[0] == "sig" and ev[1][1] == real and (ev[1][0] in ("Stop", "HUP") or ev[1][0].startswith("Halt"))
+            promote = ev[0] == "loop" and ev[1][0] == "NoticeParent"       # (a failing pid-file rename ends it: judged elsewhere)
+            if not mine and not promote:
+                fails.append(("the master exited (status %d) although nobody stopped it: the last event was %r - the exit of the other "
+                              "master (status %r) must not take this one down" % (o[r0 + 1], ev, o[s0 + 1]), None))
         # HUP must not end a master
         if prev is not None and ev is not None and ev[0] == "sig" and ev[1][0] == "HUP" and prev[r0] and not real_alive:
             key = KEY_HUPCHILD if (cfg["pidconf"] and prev[r0 + 3] and prev[s0]) else None
@@ -429,6 +449,13 @@ def fixed_cases():
             cs.append((cd, "A", [("USR2", "A"), ("WINCH", "A"), ("Stop", "B"), ("NoticeChild", "A"), ("HUP", "A"), ("USR2", "A")]))
             cs.append((c, "A", [("USR2", "A"), ("HUP", "A"), ("HUP", "B"), ("NoticeChild", "A"), ("USR2", "A")]))
             cs.append((c, "A", [("HUP", "A"), ("USR2", "A"), ("HUP", "A"), ("Stop", "A")]))
+            # the new master stops by itself (its workers cannot boot: exit status 3 / 4): the old one goes on, upgrades again
+            for hk in ("Halt3", "Halt4"):
+                cs.append((c, "A", [("USR2", "A"), (hk, "B"), ("NoticeChild", "A"), ("USR2", "A"), ("Stop", "B"), ("NoticeChild", "A"), ("Stop", "A")]))
+                cs.append((c, "A", [("USR2", "A"), (hk, "B"), ("Stop", "A")]))
+                cs.append((c, "B", [(hk, "B")]))                                                     # seen from the failing child
+                cs.append((c, "B", [("Stop", "A"), ("NoticeParent", "B"), ("USR2", "B"), (hk, "A"), ("NoticeChild", "B"), ("USR2", "B")]))
+                cs.append((c, "A", [(hk, "A")]))                                                     # a single master halting
             # real = new master
             cs.append((c, "B", [("USR2", "B"), ("Stop", "A"), ("NoticeParent", "B"), ("USR2", "B"), ("USR2", "B"), ("Stop", "B")]))
             cs.append((c, "B", [("Stop", "A"), ("Stop", "B")]))
@@ -446,7 +473,7 @@ def gen_random(rng):
     real = rng.choice(["A", "B"])
     n = rng.randint(1, 9)
     evs = []
-    kinds = ["USR2", "USR2", "Stop", "NoticeChild", "NoticeParent", "HUP", "WINCH"]
+    kinds = ["USR2", "USR2", "Stop", "NoticeChild", "NoticeParent", "HUP", "WINCH", "Halt3", "Halt4"]
     for _ in range(n):
         k = rng.choice(kinds)
         slot = rng.choice(["A", "B", real])
